@@ -5,7 +5,7 @@ use std::sync::OnceLock;
 use vcore::proptest::prelude::*;
 use vcore::{Cx, Level, Res};
 
-const RULE: &str = "cases are (a) the COMPLETE product of event classes — kind {absent, typed span, typed metric, text span, text metric, unknown text, upper-case SPAN, mixed-case Metric, padded ' metric ', integer, bool} x extent {none, point, range, empty range} x metric value {int, float, int seq, float seq, mixed numeric seq, empty seq, nested seq, seq with a text element, text, numeric-looking text, bool, missing, u64 above i64::MAX; sequences captured through sval and through serde} x aggregation {absent, sum, count, last, min, max} x all 8 subsets of configured signals x wire {HTTP/protobuf, HTTP/JSON, both with gzip, gRPC, gRPC with gzip}, each class one case served by a real emit_otlp emitter per (subset, wire) talking to the scripted collector, and (b) random streams of 1-6 events with random payloads (other integer/float widths, NaN/inf, null, random kind texts and case/padding variants, extra properties, kind property first or last) over random per-signal wire mixes. Non-trivial = the event carries (or may carry) a span/metric kind but that kind's signal is not configured or the event fails the kind's qualification (metric without a numeric/numeric-sequence value, span without a range extent).";
+const RULE: &str = "cases are (a) the COMPLETE product of event classes — kind {absent, typed span, typed metric, text span, text metric, unknown text, upper-case SPAN, mixed-case Metric, padded ' metric ', integer, bool} x extent {none, point, range, empty range} x metric value {int, float, int seq, float seq, mixed numeric seq, empty seq, nested seq, seq with a text element, text, numeric-looking text, bool, missing, u64 above i64::MAX; sequences captured through sval and through serde} x aggregation {absent, sum, count, last, min, max} x all 8 subsets of configured signals x wire {HTTP/protobuf, HTTP/JSON, both with gzip, gRPC, gRPC with gzip}, each class one case served by a real emit_otlp emitter per (subset, wire) talking to the scripted collector, (a2) the COMPLETE product kind {typed span, typed metric, 'span', 'metric', ' SPAN ', 'Metric', 'spam'} x representation of the kind value {live emit::Kind / &str, owned String, Value::from_display, Display-only newtype, format_args} x buffering of the props on the way to the emitter {none, Value::to_owned, Value::to_shared, owned copy replayed on another thread} x extent {point, range} x value {int, float seq, text, missing} x aggregation {absent, sum} x 8 subsets x 3 wires, and (b) random streams of 1-6 events with random payloads (other integer/float widths, NaN/inf, null, random kind texts and case/padding variants, extra properties, kind property first or last) over random per-signal wire mixes. Non-trivial = the event carries (or may carry) a span/metric kind but that kind's signal is not configured or the event fails the kind's qualification (metric without a numeric/numeric-sequence value, span without a range extent).";
 
 // ---------------------------------------------------------------------------------------------
 // (a) complete class product
@@ -93,7 +93,7 @@ impl ClassCase {
             4 => AggSpec::Text("min".into()),
             _ => AggSpec::Text("max".into()),
         };
-        EventSpec { kind, extent, value, agg, capture, extras: vec![], kind_last: false }
+        EventSpec { kind, extent, value, agg, capture, extras: vec![], kind_last: false, kind_repr: KindRepr::Live, buffering: Buffering::None }
     }
 }
 
@@ -151,6 +151,129 @@ fn check_class(s: &vcore::Session, case: &ClassCase, quick: bool, cx: &mut Cx) -
         judge(&cfg, &spec, &run.obs[0], cx)
     } else {
         let table = TABLE.get_or_init(|| precompute(quick));
+        match &table[&(case.subset, case.wire)] {
+            Ok(run) => {
+                judge_run(run, cx)?;
+                judge(&cfg, &spec, &run.obs[case.index()], cx)
+            }
+            Err(e) => {
+                if case.index() == 0 {
+                    s.inconclusive(format!("harness: {e}"));
+                }
+                Ok(())
+            }
+        }
+    }
+}
+
+// ---------------------------------------------------------------------------------------------
+// (a2) complete product over the REPRESENTATION of the kind value and the buffering of the props
+
+const R_KINDS: usize = 7;
+const R_REPRS: usize = 5;
+const R_BUFS: usize = 4;
+const R_EXTENTS: usize = 2;
+const R_VALUES: usize = 4;
+const R_AGGS: usize = 2;
+const R_PER_CONFIG: usize = R_KINDS * R_REPRS * R_BUFS * R_EXTENTS * R_VALUES * R_AGGS;
+const R_WIRES: [Wire; 3] = [Wire::HttpProto, Wire::HttpJson, Wire::GrpcProto];
+
+#[derive(Serialize, Deserialize, Debug, Clone, Copy, PartialEq, Eq, Hash)]
+struct ReprCase {
+    subset: u8,
+    wire: Wire,
+    kind: u8,
+    repr: u8,
+    buffering: u8,
+    extent: u8,
+    value: u8,
+    agg: u8,
+}
+
+impl ReprCase {
+    fn index(&self) -> usize {
+        let mut i = self.kind as usize;
+        i = i * R_REPRS + self.repr as usize;
+        i = i * R_BUFS + self.buffering as usize;
+        i = i * R_EXTENTS + self.extent as usize;
+        i = i * R_VALUES + self.value as usize;
+        i * R_AGGS + self.agg as usize
+    }
+
+    fn from_index(subset: u8, wire: Wire, mut i: usize) -> ReprCase {
+        let agg = i % R_AGGS;
+        i /= R_AGGS;
+        let value = i % R_VALUES;
+        i /= R_VALUES;
+        let extent = i % R_EXTENTS;
+        i /= R_EXTENTS;
+        let buffering = i % R_BUFS;
+        i /= R_BUFS;
+        let repr = i % R_REPRS;
+        let kind = i / R_REPRS;
+        ReprCase { subset, wire, kind: kind as u8, repr: repr as u8, buffering: buffering as u8, extent: extent as u8, value: value as u8, agg: agg as u8 }
+    }
+
+    fn spec(&self) -> EventSpec {
+        let kind = match self.kind {
+            0 => KindSpec::Typed { span: true },
+            1 => KindSpec::Typed { span: false },
+            2 => KindSpec::Text("span".into()),
+            3 => KindSpec::Text("metric".into()),
+            4 => KindSpec::Text(" SPAN ".into()),
+            5 => KindSpec::Text("Metric".into()),
+            _ => KindSpec::Text("spam".into()),
+        };
+        let kind_repr = [KindRepr::Live, KindRepr::OwnedString, KindRepr::FromDisplay, KindRepr::DisplayNewtype, KindRepr::FormatArgs][self.repr as usize];
+        let buffering = [Buffering::None, Buffering::ToOwned, Buffering::ToShared, Buffering::OtherThread][self.buffering as usize];
+        let extent = if self.extent == 0 { ExtentSpec::Point { secs: 10 } } else { ExtentSpec::Range { secs: 10, len_ms: 1500 } };
+        let (value, capture) = match self.value {
+            0 => (ValueSpec::I64(42), Capture::Sval),
+            1 => (ValueSpec::Seq(vec![Num::F(1500), Num::F(-250)]), Capture::Sval),
+            2 => (ValueSpec::Text("hello".into()), Capture::Sval),
+            _ => (ValueSpec::Missing, Capture::Sval),
+        };
+        let agg = if self.agg == 0 { AggSpec::Absent } else { AggSpec::Text("sum".into()) };
+        EventSpec { kind, extent, value, agg, capture, extras: vec![], kind_last: false, kind_repr, buffering }
+    }
+}
+
+type ReprTable = HashMap<(u8, Wire), Result<ConfigRun, String>>;
+static REPR_TABLE: OnceLock<ReprTable> = OnceLock::new();
+
+fn precompute_repr() -> ReprTable {
+    let configs: Vec<(u8, Wire)> = R_WIRES.into_iter().flat_map(|w| (0..8u8).map(move |s| (s, w))).collect();
+    let mut out = HashMap::new();
+    std::thread::scope(|scope| {
+        let handles: Vec<_> = configs
+            .iter()
+            .map(|&(subset, wire)| {
+                scope.spawn(move || {
+                    let cfg = Config::uniform(subset, wire);
+                    let events: Vec<EventSpec> = (0..R_PER_CONFIG).map(|i| ReprCase::from_index(subset, wire, i).spec()).collect();
+                    ((subset, wire), run_config(&cfg, 0, &events))
+                })
+            })
+            .collect();
+        for h in handles {
+            let (k, v) = h.join().expect("config run panicked");
+            out.insert(k, v);
+        }
+    });
+    out
+}
+
+fn check_repr(s: &vcore::Session, case: &ReprCase, cx: &mut Cx) -> Res {
+    let cfg = Config::uniform(case.subset, case.wire);
+    let spec = case.spec();
+    classify(&cfg, &spec, cx);
+    cx.class(&format!("wire:{:?}", case.wire));
+    if cx.replaying {
+        let Some(run) = harness(s, run_config(&cfg, 7, &[spec.clone()])) else { return Ok(()) };
+        judge_run(&run, cx)?;
+        judge(&cfg, &spec, &run.obs[0], cx)
+    } else {
+        let table = REPR_TABLE.get_or_init(precompute_repr);
         match &table[&(case.subset, case.wire)] {
             Ok(run) => {
                 judge_run(run, cx)?;
@@ -241,8 +364,21 @@ fn event() -> impl Strategy<Value = EventSpec> {
         1 => any::<i64>().prop_map(AggSpec::Int),
     ];
     let capture = prop_oneof![Just(Capture::Sval), Just(Capture::Serde)];
-    (kind, extent, value, agg, capture, prop::collection::vec(any::<i64>(), 0..3), any::<bool>()).prop_map(
-        |(kind, extent, value, agg, capture, extras, kind_last)| EventSpec { kind, extent, value, agg, capture, extras, kind_last },
+    let kind_repr = prop_oneof![
+        4 => Just(KindRepr::Live),
+        1 => Just(KindRepr::OwnedString),
+        1 => Just(KindRepr::FromDisplay),
+        1 => Just(KindRepr::DisplayNewtype),
+        1 => Just(KindRepr::FormatArgs),
+    ];
+    let buffering = prop_oneof![
+        5 => Just(Buffering::None),
+        2 => Just(Buffering::ToOwned),
+        2 => Just(Buffering::ToShared),
+        1 => Just(Buffering::OtherThread),
+    ];
+    (kind, extent, value, agg, capture, prop::collection::vec(any::<i64>(), 0..3), any::<bool>(), kind_repr, buffering).prop_map(
+        |(kind, extent, value, agg, capture, extras, kind_last, kind_repr, buffering)| EventSpec { kind, extent, value, agg, capture, extras, kind_last, kind_repr, buffering },
     )
 }
 
@@ -298,6 +434,29 @@ fn main() {
                 .into_iter()
                 .flat_map(|w| (0..8u8).flat_map(move |sub| (0..PER_CONFIG).map(move |i| ClassCase::from_index(sub, w, i))));
             s.enumerate("class-product", cases, move |c, cx| check_class(s, c, quick, cx));
+
+            // how the kind VALUE is represented and whether the props were buffered on the way
+            for (class, min) in [
+                ("kind-repr:live-kind", 1000),
+                ("kind-repr:str", 1000),
+                ("kind-repr:string", 1000),
+                ("kind-repr:display-captured", 1000),
+                ("kind-repr:display-newtype", 1000),
+                ("kind-repr:format-args", 1000),
+                ("kind-repr:owned-kind", 300),
+                ("kind-repr:shared-kind", 300),
+                ("kind-repr:owned-kind-on-other-thread", 300),
+                ("kind-repr:buffered-str", 300),
+                ("kind-repr:buffered-string", 300),
+                ("kind-repr:buffered-display", 300),
+                ("buffered:to-owned", 3000),
+                ("buffered:to-shared", 3000),
+                ("buffered:replayed-on-other-thread", 3000),
+            ] {
+                s.require(class, min);
+            }
+            let repr_cases = R_WIRES.into_iter().flat_map(|w| (0..8u8).flat_map(move |sub| (0..R_PER_CONFIG).map(move |i| ReprCase::from_index(sub, w, i))));
+            s.enumerate("kind-representation-product", repr_cases, move |c, cx| check_repr(s, c, cx));
 
             s.gen("random-streams", s.n(6000, 200_000), stream_case, |c, cx| check_stream(s, c, cx));
         },
